@@ -3,13 +3,26 @@
    precondition (the harness then judges against the model only), [s] otherwise; or a top-level
    error value when the model returns an error. *)
 From Coq Require Import ZArith List Bool.
-From EV Require Import Res Arr Val Spans SpansSpec SpansRle.
+From EV Require Import Res Arr Val Spans SpansSpec SpansRle SpansRepr.
 Import ListNotations.
 Open Scope Z_scope.
 
-(* column: [0, [z…]] numeric | [1, [[bytes]…]] fixed | [2, [offsets], [bytes]] indexed *)
+(* column: [0, [z…]] numeric | [1, [[bytes]…]] fixed | [2, [offsets], [bytes]] indexed
+           | [3, w, [bits…]] binary<w> floats given by their STORED bit patterns (decoded to keys by float_key; a NaN
+             pattern is a bad case) | [4, w, [[bytes]…]] 'S<w>' elements written from byte strings of length <= w *)
 Definition as_column (v:val) : option column :=
   match v with
+  | VL [VZ 3; VZ w; l] =>
+      match as_list l with
+      | Some bits => if forallb (fun b => (0 <=? b) && (b <? 2 ^ w) && negb (float_is_nan w (mant_bits w) b)) bits
+                     then Some (ColNum (map (float_key w) bits)) else None
+      | None => None
+      end
+  | VL [VZ 4; VZ w; l] =>
+      match as_list2 l with
+      | Some rows => if forallb (fun r => len r <=? w) rows then Some (ColFixed (map (pad_fixed w) rows)) else None
+      | None => None
+      end
   | VL [VZ 0; l] => option_map ColNum (as_list l)
   | VL [VZ 1; l] => option_map ColFixed (as_list2 l)
   | VL [VZ 2; i; b] => match as_list i, as_list b with Some i, Some b => Some (ColIndexed i b) | _, _ => None end
@@ -172,8 +185,50 @@ Definition apply_rle (kid level:Z) (sp:list Z) (c:rcol) : val :=
       end
   end.
 
+Definition as_columns (v:val) : option (list column) :=
+  match v with VL l => all_some (map as_column l) | _ => None end.
+Definition all_num (cs:list column) : option (list (list Z)) :=
+  all_some (map (fun c => match c with ColNum l => Some l | _ => None end) cs).
+Definition all_fixed (cs:list column) : option (list (list (list Z))) :=
+  all_some (map (fun c => match c with ColFixed l => Some l | _ => None end) cs).
+
 Definition entry_C08 (v:val) : val :=
   match v with
+  (* DataFrame.groupby(by=[...]) on key columns given by representation: mixed = the dtypes differ *)
+  | VL [VZ 7; VZ mixed; cols] =>
+      match as_columns cols with
+      | Some cs =>
+          if forallb (fun c => match c with ColIndexed _ _ => false | _ => true end) cs then
+            let rows := map column_rows cs in
+            answer (rmap vlist (groupby_spans (negb (mixed =? 0)) rows))
+                   (if same_lengths rows then Some (vlist (spans_ref rows_neqb (transpose rows))) else None)
+          else vbad
+      | None => vbad
+      end
+  (* _get_spans_for_multi_fields (which = 0) / check_if_sorted_for_multi_fields (which = 1) on np.asarray of columns
+     given by representation (all numeric, widened to a common dtype; or all fixed, re-padded to a common width) *)
+  | VL [VZ 8; VZ which; cols] =>
+      match as_columns cols with
+      | Some cs =>
+          match all_num cs, all_fixed cs with
+          | Some fs, _ =>
+              if which =? 0 then
+                answer (rmap vlist (get_spans_for_multi_fields Z_neqb fs))
+                       (if same_lengths fs then Some (vlist (spans_ref bytes_neqb (transpose fs))) else None)
+              else
+                answer (rmap vbool (check_if_sorted_for_multi_fields Z.ltb fs))
+                       (if same_lengths fs then Some (vbool (rows_sortedb Z.ltb (transpose fs))) else None)
+          | None, Some fs =>
+              if which =? 0 then
+                answer (rmap vlist (get_spans_for_multi_fields bytes_neqb fs))
+                       (if same_lengths fs then Some (vlist (spans_ref rows_neqb (transpose fs))) else None)
+              else
+                answer (rmap vbool (check_if_sorted_for_multi_fields bytes_ltb fs))
+                       (if same_lengths fs then Some (vbool (rows_sortedb bytes_ltb (transpose fs))) else None)
+          | None, None => vbad
+          end
+      | None => vbad
+      end
   | VL [VZ 22; VZ kid; VZ level; sp; c] =>
       match as_list sp, as_rcol c with
       | Some sp, Some c => apply_rle kid level sp c
